@@ -77,6 +77,7 @@ class Ctx:
         self.excluded = {}
         self.known = [e for e in load_known(prop_id) if e.get("status") == "finding"]
         self.case_dirs = []
+        self.cleanups = []
         self.last_case = None
         self.t_first_failure = None
         self.failing_key = None
@@ -111,6 +112,12 @@ class Ctx:
         return d
 
     def end_case(self):
+        for fn in reversed(self.cleanups):
+            try:
+                fn()
+            except Exception:
+                pass
+        self.cleanups = []
         for d in self.case_dirs:
             common.rmtree(d)
         self.case_dirs = []
